@@ -86,6 +86,9 @@ class Unit:
         self.sites = {'D': [], 'I': [], 'M': []}       # statements
         self.flags = {}                                # fname -> {tparam: set(flags)}
         self.funcs = []                                # all FuncDefs (for registration)
+        self.raws = {'D': [], 'I': [], 'M': []}        # module-level source lines (type declarations) placed before the helpers
+        self.typename = None                           # a type private to the declaring module that generic bodies mention by name
+        self.rt = None                                 # separate PRNG for the type-name feature (keeps the other draws unchanged)
 
 
 # ------------------------------------------------------------------ concrete values at call sites
@@ -595,6 +598,15 @@ class Gen:
                     pre.append(('assign', var(counter), ('bin', 'plus', var(counter), lit(ZAHL, '1'))))
                 if helper is not None and r.random() < 0.6:
                     pre.append(('show', ('call', helper.name, [lit(ZAHL, r.choice(['1', '5', '9']))])))
+                if unit.typename is not None and unit.rt.random() < 0.75:
+                    if unit.typename.startswith('Mass'):
+                        pre.append(('raw', 'Schreibe (((%s durch 2) als %s) als Text).' % (unit.rt.choice(['7', '9', '15']), unit.typename)))
+                    else:
+                        tv = 'tb_u%d' % unit.uid
+                        pre.append(('raw', 'Der %s %s ist ein %s mit %s.' % (unit.typename, tv, unit.typename, unit.rt.choice(['4', '6']))))
+                        pre.append(('raw', 'Schreibe (((bx von %s) durch 4) als Text).' % tv))
+                        pre.append(('raw', 'Schreibe (bt von %s).' % tv))
+                    pre.append(('raw', "Schreibe '\\n'."))
                 f.body = pre + body
                 unit.flags[f.name] = bg.flags
                 return True
@@ -666,6 +678,7 @@ class Gen:
         kind = key.split(':')[0]
         for attempt in range(8):
             u = Unit(uid, kind)
+            u.rt = random.Random('%d/type/%s/%s/%d' % (self.seed, key, self.layout.kind, attempt))
             try:
                 ok = getattr(self, 'unit_' + kind)(r, u, pos)
             except TypeErrorInModel:
@@ -692,7 +705,22 @@ class Gen:
             counter = 'zähler_u%d' % uid
             u.globals['D'].append((counter, ZAHL, lit(ZAHL, '0'), False))
             u.feats.add('counter')
+        if u.rt is not None and u.rt.random() < 0.5:
+            # a type NAME private to the declaring module; generic bodies convert through it (a name is looked up where the generic
+            # function was declared, so an instantiation made for another module must see this meaning of it)
+            if u.rt.random() < 0.6:
+                u.typename = 'Mass_u%d' % uid
+                u.raws['D'].append('Wir nennen eine Zahl auch eine %s.\n' % u.typename)
+            else:
+                u.typename = 'Bund_u%d' % uid
+                u.raws['D'].append(self._bund(u.typename, 'Zahl', '3', '"d"'))
+            u.feats.add('private-type-name')
         return helper, counter
+
+    @staticmethod
+    def _bund(name, numtype, numdefault, textdefault):
+        return ('Wir nennen die Kombination aus\n\tder %s bx mit Standardwert %s,\n\tdem Text bt mit Standardwert %s,\n'
+                'einen %s, und erstellen sie so:\n\t"ein %s mit <bx>"\n' % (numtype, numdefault, textdefault, name, name))
 
     def _register(self, u, role, f, fwd=False):
         u.gens[role].append(('func', f))
@@ -713,8 +741,13 @@ class Gen:
                 t = r.choice([ZAHL, TEXT])
                 u.globals[role].append((counter, t, lit(t, '7777' if t == ZAHL else '"schatten"'), False))
                 u.feats.add('shadow-global')
-            if lay.kind in ('three', 'hidden') and role == 'M' and lay.mods['I'] != lay.mods['M'] and r.random() < 0.5:
-                pass
+            if u.typename is not None and u.rt.random() < 0.7:
+                other = u.rt.choice(['Kommazahl', 'Kommazahl', 'Text'])
+                if u.typename.startswith('Mass'):
+                    u.raws[role].append('Wir nennen %s auch eine %s.\n' % ('einen Text' if other == 'Text' else 'eine Kommazahl', u.typename))
+                else:
+                    u.raws[role].append(self._bund(u.typename, 'Kommazahl', '1,5', '"schatten"'))
+                u.feats.add('shadow-type-name')
 
     def _drivers_counter(self, u, counter):
         if counter is not None:
@@ -1009,6 +1042,11 @@ class Gen:
             m.add('zeige')
             for u in units:
                 for role in roles:
+                    for i, raw in enumerate(u.raws[role]):
+                        if i == 0 and not any(it[0] == 'raw' and (' %s.' % u.typename in it[1] or 'einen %s,' % u.typename in it[1]) for it in m.items):
+                            m.add('raw', raw)       # one meaning per module (layouts with fewer modules: the declaring module's wins)
+            for u in units:
+                for role in roles:
                     for g in u.globals[role]:
                         if not any(it[0] == 'global' and it[1] == g[0] for it in m.items):
                             m.add('global', *g)
@@ -1111,6 +1149,8 @@ def unit_features(u):
                 fs.add('caller-shadows-name')
         if u.globals[role]:
             fs.add('caller-shadows-global')
+        if u.raws[role]:
+            fs.add('caller-shadows-type-name')
     if any(it[0] == 'fwd' for it in u.gens['D']):
         fs.add('mutual-recursion')
     for g in gens:
